@@ -251,6 +251,24 @@ def dy_matrix(rng, shape, with0):
     return m, m0
 
 
+def param_shapes(rng, A0, k):
+    """k parameter shapes, each of its own rank 0..|A0| with axes of size 1 or A0's, whose append-broadcast is A0"""
+    n = len(A0)
+    shapes = []
+    for _ in range(k):
+        r = rng.randint(0, n)
+        shapes.append([A0[i] if rng.random() < 0.5 else 1 for i in range(r)])
+    for i in range(n):
+        if A0[i] > 1 and not any(len(P) > i and P[i] == A0[i] for P in shapes):
+            P = rng.choice(shapes)
+            P.extend([1] * (i + 1 - len(P)))
+            P[i] = A0[i]
+    if max(len(P) for P in shapes) < n:
+        P = rng.choice(shapes)
+        P.extend([1] * (n - len(P)))
+    return [tuple(P) for P in shapes]
+
+
 def gen_opshape(rng, G, mode=None):
     """operator shape A (append-compatible with G), the value given to axes=, the positions of the raw
     parameter axes in A, and the raw parameter shape A0"""
@@ -278,21 +296,30 @@ def gen_case(rng, tier, exact=False, deriv=None, force=None):
         G = tuple(d if rng.random() < 0.8 else 1 for _ in range(g))   # equal sizes: the in-place matmul shapes
     else:
         G = tuple(rng.choice([1, 2, 2, 3]) for _ in range(g))
+    if force == "mixed-o2":      # parameter arrays of different ranks whose sizes coincide (square) or not
+        g = rng.choice([2, 2, 3])
+        d = rng.choice([2, 2, 3])
+        G = tuple([d, d if rng.random() < 0.6 else rng.choice([2, 3])] + [rng.choice([1, 2])] * (g - 2))
     if prodn(G) > (16 if g == 4 else 36):
         G = tuple(min(d, 2) for d in G)
     nops = rng.randint(2, 6)
     deriv = deriv if deriv is not None else rng.choice(["none", "none", "o1", "o1", "o2"])
     if exact:
         deriv = "none"
-    ops = []
+    ops = [{"kind": "T0"}]      # excite first: partials w.r.t. T2 / g / phi vanish on the equilibrium state
     shifted = 0
     for _ in range(nops):
         kinds = ["ScalarOp", "MatrixOp"] if exact else ["T", "T", "Phi", "E", "E", "P", "R", "PD", "ScalarOp", "MatrixOp"]
         kind = rng.choice(kinds)
         fmode = None
-        if force == "axes+deriv" and not ops:
+        if force == "axes+deriv" and len(ops) == 1:
             kind, fmode = rng.choice(["E", "E", "P", "R"]), rng.choice(["int", "tuple"])
-        A, axes, pos, A0 = gen_opshape(rng, G, fmode)
+        if force == "mixed-o2" and len(ops) == 1:
+            kind, fmode = rng.choice(["E", "E", "E", "P", "T", "R"]), "mixed-o2"
+        A, axes, pos, A0 = gen_opshape(rng, G, fmode if fmode != "mixed-o2" else "none")
+        if fmode == "mixed-o2":
+            A = tuple(G[:max(2, len(A))]) if len(G) >= 2 else tuple(G)
+            axes, pos, A0 = None, list(range(len(A))), A
         o = {"kind": kind, "A": list(A), "axes": axes, "pos": pos, "A0": list(A0), "params": {}, "order1": None, "order2": False}
         if kind == "PD":
             o["axes"], o["pos"], o["A0"] = None, list(range(len(A))), list(A)
@@ -309,22 +336,37 @@ def gen_case(rng, tier, exact=False, deriv=None, force=None):
                 o["params"]["mat0"] = {"v": mat0, "core": 2, "form": "array"}
         else:
             names = PHYS[kind]
-            full = rng.randrange(len(names))      # this parameter carries the whole raw shape A0
-            for j, (nm, (lo, hi)) in enumerate(names):
-                if j == full:
-                    P = tuple(A0)
-                else:
-                    r = rng.random()
-                    P = () if r < 0.5 else tuple(A0[i] if rng.random() < 0.5 else 1 for i in range(rng.randint(1, len(A0))))
+            # every parameter gets its own shape (rank 0..|A0|, on its own axes, append-aligned);
+            # together they span the raw operator shape A0
+            shapes = param_shapes(rng, tuple(A0), len(names))
+            for (nm, (lo, hi)), P in zip(names, shapes):
                 if P == ():
                     o["params"][nm] = {"v": float(rnd_values(rng, lo, hi, ())), "core": 0, "form": "scalar"}
                 else:
                     o["params"][nm] = {"v": rnd_values(rng, lo, hi, P).tolist(), "core": 0, "form": rng.choice(["array", "list"])}
             if deriv != "none" and (rng.random() < 0.7 or fmode):
-                if deriv == "o2" and kind != "R":
-                    o["order1"], o["order2"] = True, True
+                pnames = [nm for nm, _ in names]
+                if deriv == "o2":
+                    form = rng.choice(["true", "names", "names", "pairs", "pairs", "single"]) if kind != "R" else rng.choice(["names", "pairs", "single"])
+                    if fmode == "mixed-o2":
+                        form = rng.choice(["true", "names", "pairs"]) if kind != "R" else rng.choice(["names", "pairs"])
+                    if form == "true":
+                        o["order1"], o["order2"] = True, True
+                    elif form == "names":
+                        sub = sorted(rng.sample(pnames, rng.randint(2, len(pnames)))) if len(pnames) >= 2 else pnames
+                        if fmode == "mixed-o2":
+                            sub = pnames
+                        o["order1"], o["order2"] = sub, list(sub)
+                    elif form == "pairs":
+                        import epgpy as epg
+                        valid = sorted(tuple(sorted(pr)) for pr in getattr(epg, kind).PARAMETERS_ORDER2 if set(pr) <= set(pnames))
+                        prs = valid if fmode == "mixed-o2" else rng.sample(valid, rng.randint(1, len(valid)))
+                        o["order1"], o["order2"] = sorted({x for pr in prs for x in pr}), [list(pr) for pr in prs]
+                    else:
+                        nm1 = rng.choice(pnames)
+                        o["order1"], o["order2"] = [nm1], nm1
                 else:
-                    o["order1"] = sorted(rng.sample([nm for nm, _ in names], rng.randint(1, len(names))))
+                    o["order1"] = sorted(rng.sample(pnames, rng.randint(1, len(pnames))))
         ops.append(o)
         if rng.random() < 0.45:
             d = rng.choice([1, 1, 2])
@@ -388,7 +430,8 @@ def build_op(o, idx=None):
     if o.get("order1"):
         kw["order1"] = o["order1"]
     if o.get("order2"):
-        kw["order2"] = True
+        o2 = o["order2"]
+        kw["order2"] = [tuple(x) for x in o2] if isinstance(o2, list) and o2 and isinstance(o2[0], (list, tuple)) else o2
     if idx is None:
         vals = {nm: param_obj(p) for nm, p in o["params"].items()}
         if o["axes"] is not None:
@@ -414,9 +457,11 @@ def probes_of(case, seq):
     if case["deriv"] != "none":
         vs = sorted({v for op in seq for v in getattr(op, "order1", {})})
         if vs:
-            pr.append(epg.Jacobian(vs, probe=case["probe"]))
+            for pb in ("F0", "Z0"):
+                pr.append(epg.Jacobian(vs, probe=pb))
             if case["deriv"] == "o2":
-                pr.append(epg.Hessian(vs[:2], probe=case["probe"]))
+                for pb in ("F0", "Z0"):
+                    pr.append(epg.Hessian(vs, probe=pb))
     return pr
 
 
@@ -732,7 +777,9 @@ def part_bc(ctx, n, n_exact):
     for i in range(n + n_exact):
         exact = i >= n
         directed = (not exact) and i % 4 == 3
-        case = gen_case(rng, ctx.tier, exact=exact, deriv="o1" if directed else None, force="axes+deriv" if directed else None)
+        mixed = (not exact) and i % 4 == 1
+        case = gen_case(rng, ctx.tier, exact=exact, deriv="o1" if directed else "o2" if mixed else None,
+                        force="axes+deriv" if directed else "mixed-o2" if mixed else None)
         stats["cases"] += 1
         stats["exact_cases"] += int(exact)
         stats["deriv"][case["deriv"]] = stats["deriv"].get(case["deriv"], 0) + 1
